@@ -9,17 +9,17 @@ From PV Require Import Base.Tac Base.ListX Lifo.LifoDefs Lifo.LifoHeap.
 From Coq Require Import Permutation.
 Local Open Scope Z_scope.
 
-Definition infl (p : pc) : list item := match p with PCas xs _ => xs | _ => [] end.
 Lemma held_eq th : held th = t_own th ++ infl (t_pc th).
 Proof. reflexivity. Qed.
 
 (* what a thread suspended at [p] may rely on *)
 Definition pc_ok (nx : item -> option item) (hc : Z) (s : list item) (p : pc) : Prop :=
   match p with
-  | Idle => True
+  | PWr xs => xs <> [] /\ exists h, seg nx (hd_error xs) xs h
   | PCas xs h => xs <> [] /\ seg nx (hd_error xs) xs h
   | PopRd _ k => k <= hc
   | PopCas _ k it nx' => k <= hc /\ (k = hc -> In it s /\ nx it = nx')
+  | Idle | PopRetry | PRet _ => True
   end.
 
 Lemma last_In (xs : list item) : xs <> [] -> In (last xs O) xs.
@@ -73,16 +73,22 @@ Proof.
     + rewrite (nth_upd_same _ _ _ _ Hth) in Hu. inversion Hu; subst. exact Hpc.
     + rewrite (nth_upd_other _ _ _ _ _ Hth Hne) in Hu.
       pose proof (I_pc _ _ HI _ _ Hu) as Hok. pose proof (Hrest _ _ Hne Hu) as Hin.
-      destruct (t_pc thu) as [|xs h|try k|try k it nx] eqn:Epc; cbn [pc_ok] in *.
+      assert (Hfr' : forall x, In x (infl (t_pc thu)) -> nx' x = nxt c x).
+      { intros x Hx. apply Hfr. intros Hx'. apply (NoDup_app_disj _ _ x Hnd Hx'). apply Hin.
+        rewrite held_eq. apply in_or_app. now right. }
+      destruct (t_pc thu) as [|xs|xs h|try k|try k it nx| |a] eqn:Epc; cbn [pc_ok infl] in *.
       * exact I.
+      * destruct Hok as [Hne' [h Hseg]]. split; [assumption|]. exists h.
+        apply (seg_ext (nxt c)); assumption.
       * destruct Hok as [Hne' Hseg]. split; [assumption|].
-        apply (seg_ext (nxt c)); [|assumption]. intros x Hx. apply Hfr. intros Hx'.
-        apply (NoDup_app_disj _ _ x Hnd Hx'). apply Hin. rewrite held_eq, Epc. apply in_or_app. now right.
+        apply (seg_ext (nxt c)); assumption.
       * lia.
       * destruct Hok as [Hk Hok]. split; [lia|]. intros E.
         assert (E' : hc' = hcnt c) by lia. assert (E'' : k = hcnt c) by lia.
         destruct (Hok E'') as [Hit Hnx]. destruct (Hsame E' it Hit) as [Hit' Hnx'].
         split; [assumption|congruence].
+      * exact I.
+      * exact I.
 Qed.
 
 Lemma linked_empty_iff f o s : linked f o s ->
@@ -96,22 +102,11 @@ Proof.
   pose proof (Inv_nodup _ _ _ _ HI Hth) as Hnd.
   pose proof (I_pc _ _ HI _ _ Hth) as Hok.
   pose proof (I_replay _ _ HI) as Hrep. pose proof (I_linked _ _ HI) as Hlnk.
-  rewrite held_eq in Hnd.
+  rewrite held_eq in Hnd. cbn zeta.
   (* goals of Inv_update, in order: replay, linked, permutation, pc_ok, frame, counter, same-counter *)
-  destruct (t_pc th) as [|xs h|try k|try k it nx] eqn:Epc; cbn [pc_ok infl] in *.
+  destruct (t_pc th) as [|xs|xs h|try k|try k it nx| |a] eqn:Epc; cbn [pc_ok infl] in *.
   - (* Idle: start the next operation *)
     destruct (t_ops th) as [|o ops] eqn:Eops; [now exists s|].
-    assert (Hskip : Inv {| nxt := nxt c; hcnt := hcnt c; hitem := hitem c;
-                thr := upd (thr c) t (fin (mkth Idle ops (t_own th) (t_res th)) (t_own th) (APush []));
-                hist := fin_ev t (APush []) ++ EInv t o :: hist c |} s).
-    { apply (Inv_update c s t th _ _ _ _ _ s HI Hth).
-      - cbn. now rewrite Hrep.
-      - exact Hlnk.
-      - rewrite !held_eq, Epc. reflexivity.
-      - exact I.
-      - reflexivity.
-      - lia.
-      - intros _ x Hx. now split. }
     assert (Hstart : forall xs own', xs <> [] -> Permutation (t_own th) (xs ++ own') ->
               Inv {| nxt := link (nxt c) xs (hitem c); hcnt := hcnt c; hitem := hitem c;
                 thr := upd (thr c) t (mkth (PCas xs (hitem c)) ops own' (t_res th));
@@ -144,55 +139,69 @@ Proof.
       - reflexivity.
       - lia.
       - intros _ x Hx. now split. }
-    destruct o as [j|n| | |].
-    + destruct (pick j (t_own th)) as [[x own']|] eqn:Ep; [|now exists s].
-      exists s. apply Hstart; [discriminate|]. now apply (pick_perm j).
-    + destruct (firstn n (t_own th)) as [|x r] eqn:Ef; [now exists s|].
-      exists s. apply Hstart; [discriminate|]. rewrite <- Ef. now rewrite firstn_skipn.
-    + exists s. apply Hrd.
-    + exists s. apply Hrd.
-    + exists s. apply (Inv_update c s t th _ _ _ _ _ s HI Hth).
-      * cbn. rewrite Hrep. cbn [astep]. rewrite (linked_empty_iff _ _ _ Hlnk).
-        now rewrite eqb_reflx.
-      * exact Hlnk.
-      * rewrite !held_eq, Epc. reflexivity.
-      * exact I.
-      * reflexivity.
-      * lia.
-      * intros _ x Hx. now split.
-  - (* PCas: the CAS of push / chain *)
-    destruct Hok as [Hne Hseg].
+    assert (Hwhole : forall a, astep s a = Some s ->
+              Inv {| nxt := nxt c; hcnt := hcnt c; hitem := hitem c;
+                thr := upd (thr c) t (fin (mkth Idle ops (t_own th) (t_res th)) (t_own th) a);
+                hist := fin_ev t a ++ EInv t o :: hist c |} s).
+    { intros a Ha. apply (Inv_update c s t th _ _ _ _ _ s HI Hth).
+      - cbn. now rewrite Hrep.
+      - exact Hlnk.
+      - rewrite !held_eq, Epc. reflexivity.
+      - exact I.
+      - reflexivity.
+      - lia.
+      - intros _ x Hx. now split. }
+    exists s. destruct o as [j|n| | |].
+    + destruct (pick j (t_own th)) as [[x own']|] eqn:Ep; [|now apply Hwhole].
+      apply Hstart; [discriminate|]. now apply (pick_perm j).
+    + destruct (firstn n (t_own th)) as [|x r] eqn:Ef; [now apply Hwhole|].
+      apply Hstart; [discriminate|]. rewrite <- Ef. now rewrite firstn_skipn.
+    + apply Hrd.
+    + apply Hrd.
+    + apply Hwhole. cbn [astep]. rewrite (linked_empty_iff _ _ _ Hlnk). now rewrite eqb_reflx.
+  - (* PWr: re-read the head, rewrite tail->list_next *)
+    destruct Hok as [Hne [h Hseg]].
     assert (Hndx : NoDup xs).
     { apply NoDup_app_remove_l in Hnd. now apply NoDup_app_remove_l in Hnd. }
     assert (Hdis : forall x, In x s -> ~ In x xs).
     { intros x Hs Hx. apply (NoDup_app_disj _ _ x Hnd Hs). apply in_or_app. now right. }
+    exists s. pose proof (last_In xs Hne) as Hl.
+    apply (Inv_update c s t th _ _ _ _ _ s HI Hth).
+    + exact Hrep.
+    + apply (seg_ext (nxt c)); [|assumption]. intros x Hx. apply set_other.
+      intros ->. now apply (Hdis _ Hx).
+    + rewrite !held_eq, Epc. reflexivity.
+    + cbn [t_pc mkth pc_ok]. split; [assumption|]. now apply (seg_set_last _ _ h).
+    + intros x Hx. apply set_other. intros ->. apply Hx. apply in_or_app. right.
+      rewrite held_eq, Epc. apply in_or_app. now right.
+    + lia.
+    + intros _ x Hx. split; [assumption|]. apply set_other. intros ->. now apply (Hdis _ Hx).
+  - (* PCas: the CAS of push / chain *)
+    destruct Hok as [Hne Hseg].
     destruct (opt_eqb (hitem c) h) eqn:Ecas.
     + apply opt_eqb_eq in Ecas. exists (xs ++ s).
       apply (Inv_update c s t th _ _ _ _ _ (xs ++ s) HI Hth).
       * cbn. now rewrite Hrep.
       * apply (seg_app _ _ _ h); [assumption|]. now rewrite <- Ecas.
-      * rewrite !held_eq, Epc. cbn [fin mkth t_own t_pc infl]. rewrite app_nil_r.
+      * rewrite !held_eq, Epc. cbn [mkth t_own t_pc infl]. rewrite app_nil_r.
         rewrite <- app_assoc. etransitivity; [apply Permutation_app_comm|]. now rewrite <- app_assoc.
       * exact I.
       * reflexivity.
       * lia.
       * intros _ x Hx. split; [apply in_or_app; now right|reflexivity].
-    + exists s. pose proof (last_In xs Hne) as Hl.
-      apply (Inv_update c s t th _ _ _ _ _ s HI Hth).
+    + exists s. apply (Inv_update c s t th _ _ _ _ _ s HI Hth).
       * exact Hrep.
-      * apply (seg_ext (nxt c)); [|assumption]. intros x Hx. apply set_other.
-        intros ->. now apply (Hdis _ Hx).
+      * exact Hlnk.
       * rewrite !held_eq, Epc. reflexivity.
-      * cbn [t_pc mkth pc_ok]. split; [assumption|]. now apply (seg_set_last _ _ h).
-      * intros x Hx. apply set_other. intros ->. apply Hx. apply in_or_app. right.
-        rewrite held_eq, Epc. apply in_or_app. now right.
+      * cbn [t_pc mkth pc_ok]. split; [assumption|]. now exists h.
+      * reflexivity.
       * lia.
-      * intros _ x Hx. split; [assumption|]. apply set_other. intros ->. now apply (Hdis _ Hx).
+      * intros _ x Hx. now split.
   - (* PopRd: read of the item pointer (and of its successor) *)
     destruct (hitem c) as [it|] eqn:Ehd.
     + exists s. apply (Inv_update c s t th _ _ _ _ _ s HI Hth).
       * exact Hrep.
-      * exact Hlnk.
+      * now rewrite Ehd.
       * rewrite !held_eq, Epc. reflexivity.
       * cbn [t_pc mkth pc_ok]. split; [assumption|]. intros _. split; [|reflexivity].
         destruct s as [|x r]; cbn in Hlnk; [discriminate|]. destruct Hlnk as [E _].
@@ -210,7 +219,7 @@ Proof.
       * reflexivity.
       * lia.
       * intros _ x Hx. now split.
-  - (* PopCas: the 128-bit CAS *)
+  - (* PopCas: the 128-bit CAS; the counter decides *)
     destruct Hok as [Hk Hok].
     destruct ((k =? hcnt c) && opt_eqb (hitem c) (Some it)) eqn:Ecas.
     + apply andb_true_iff in Ecas. destruct Ecas as [Ek Ehd].
@@ -218,16 +227,13 @@ Proof.
       destruct (Hok Ek) as [_ Hnx].
       destruct s as [|x r]; cbn in Hlnk; [congruence|]. destruct Hlnk as [E Hlnk].
       assert (x = it) by congruence. subst x.
-      assert (Hit : ~ In it r).
-      { apply NoDup_app_remove_r in Hnd. now inversion Hnd. }
       exists r. apply (Inv_update c (it :: r) t th _ _ _ _ _ r HI Hth).
       * cbn. rewrite Hrep. cbn. now rewrite Nat.eqb_refl.
-      * apply (seg_ext (nxt c)); [|now rewrite <- Hnx]. intros y Hy. apply set_other.
-        intros ->. contradiction.
-      * rewrite !held_eq, Epc. cbn [fin mkth t_own t_pc infl]. rewrite !app_nil_r.
-        symmetry. apply Permutation_middle.
+      * now rewrite <- Hnx.
+      * rewrite !held_eq, Epc. cbn [mkth t_own t_pc infl]. rewrite !app_nil_r.
+        rewrite app_assoc. etransitivity; [apply Permutation_app_comm|]. reflexivity.
       * exact I.
-      * intros y Hy. apply set_other. intros ->. apply Hy. apply in_or_app. left. now left.
+      * reflexivity.
       * lia.
       * intros E'. lia.
     + destruct try.
@@ -243,10 +249,46 @@ Proof.
         -- exact Hrep.
         -- exact Hlnk.
         -- rewrite !held_eq, Epc. reflexivity.
-        -- cbn. lia.
+        -- exact I.
         -- reflexivity.
         -- lia.
         -- intros _ x Hx. now split.
+  - (* PopRetry: re-read the counter *)
+    exists s. apply (Inv_update c s t th _ _ _ _ _ s HI Hth).
+    + exact Hrep.
+    + exact Hlnk.
+    + rewrite !held_eq, Epc. reflexivity.
+    + cbn. lia.
+    + reflexivity.
+    + lia.
+    + intros _ x Hx. now split.
+  - (* PRet: item->list_next = NULL after a pop; return *)
+    assert (Hplain : infl (PRet a) = [] ->
+              Inv {| nxt := nxt c; hcnt := hcnt c; hitem := hitem c;
+                thr := upd (thr c) t (fin th (t_own th) a);
+                hist := ERes t (res_of a) :: hist c |} s).
+    { intros Ei. apply (Inv_update c s t th _ _ _ _ _ s HI Hth).
+      - exact Hrep.
+      - exact Hlnk.
+      - rewrite !held_eq, Epc, Ei. reflexivity.
+      - exact I.
+      - reflexivity.
+      - lia.
+      - intros _ x Hx. now split. }
+    exists s. destruct a as [xs|[it|]| |b]; try (apply Hplain; reflexivity).
+    cbn [infl] in Hnd.
+    assert (Hit : ~ In it s).
+    { intros Hs. apply (NoDup_app_disj _ _ it Hnd Hs). apply in_or_app. right. now left. }
+    apply (Inv_update c s t th _ _ _ _ _ s HI Hth).
+    + exact Hrep.
+    + apply (seg_ext (nxt c)); [|assumption]. intros x Hx. apply set_other. intros ->. contradiction.
+    + rewrite !held_eq, Epc. cbn [fin mkth t_own t_pc infl]. rewrite app_nil_r.
+      apply Permutation_app_head. symmetry. apply Permutation_cons_append.
+    + exact I.
+    + intros x Hx. apply set_other. intros ->. apply Hx. apply in_or_app. right.
+      rewrite held_eq, Epc. apply in_or_app. right. now left.
+    + lia.
+    + intros _ x Hx. split; [assumption|]. apply set_other. intros ->. contradiction.
 Qed.
 
 Lemma run_Inv sched : forall c s, Inv c s -> exists s', Inv (run true c sched) s'.
